@@ -57,7 +57,7 @@ func TestVerif(t *testing.T) {
 		Run:  runC38,
 		Assumptions: []string{
 			"the availability (dials the node) and external (HTTP) validators are not executed: no real sockets in the simulation; the scripted validator stands in for them",
-			"UN/LOCODE ground truth of the generator: RU MOW and SE STO records as published (country, location, subdivision, continent)",
+			"UN/LOCODE ground truth of the generator: RU MOW, SE STO and SG SIN (no subdivision) records as published (country, location, subdivision, continent)",
 			"'current epoch' of a tick = the node's epoch state, which must equal the epoch number of the last processed NewEpoch notification (for a stale, out-of-order notification either the stale or the newer number is accepted)",
 		},
 		Components: map[string]string{
@@ -405,6 +405,8 @@ type locRec struct {
 var locTable = []locRec{
 	{"RU MOW", "RU", "Russia", "Moskva", "MOW", "Moskva", "Europe"},
 	{"SE STO", "SE", "Sweden", "Stockholm", "AB", "Stockholms län", "Europe"},
+	// a location without a subdivision: a descriptor must not claim one
+	{"SG SIN", "SG", "Singapore", "Singapore", "", "", "Asia"},
 }
 
 var locAttrKeys = []string{"CountryCode", "Country", "Location", "SubDivCode", "SubDiv", "Continent"}
@@ -437,7 +439,9 @@ func (n *nodeSpec) build() *netmaprpc.NetmapNode2 {
 		vals := []string{l.cc, l.country, l.location, l.subdivCode, l.subdiv, l.continent}
 		node.Attributes["UN-LOCODE"] = l.code
 		for i, k := range locAttrKeys {
-			node.Attributes[k] = vals[i]
+			if vals[i] != "" {
+				node.Attributes[k] = vals[i]
+			}
 		}
 		switch {
 		case n.locDefect >= 1 && n.locDefect <= 6:
